@@ -176,6 +176,36 @@ func genC15(env *core.Env, emit func(core.Case)) {
 				full = append(full, t)
 			}
 			afterFull := snapshot(res)
+			// the returned sequence is a pure function of the result: ranging over the SAME iter.Seq value
+			// again (after an abandoned pass, after a complete pass) yields the same targets again
+			{
+				idx++
+				seq := res.Targets(network)
+				w := ""
+				stopAt := 0
+				if len(full) > 0 {
+					stopAt = 1 + r.IntN(len(full))
+				}
+				cnt := 0
+				for range seq {
+					cnt++
+					if cnt >= stopAt {
+						break
+					}
+				}
+				for pass := 2; pass <= 3 && w == ""; pass++ {
+					var again []ech.Target
+					for t := range seq {
+						again = append(again, t)
+					}
+					if !reflect.DeepEqual(again, full) && !(len(again) == 0 && len(full) == 0) {
+						w = fmt.Sprintf("pass %d over the same sequence yields %d targets (%s), a fresh enumeration yields %d", pass, len(again), targetsText(again), len(full))
+					}
+				}
+				emit(core.Case{Name: fmt.Sprintf("reiterate/%d", idx), Stream: "reiterate", Key: "reiterate/" + shape,
+					Ops: []core.Op{{Kind: 'X', Note: "the sequence returned by Targets carries no state from one pass to the next", Want: w}},
+					Sig: fmt.Sprintf("reiterate/%s/%s/n%d", network, shape, min(len(full), 4)), Sample: map[string]any{"network": network, "result": args, "targets": len(full), "abandoned_after": stopAt}})
+			}
 			for k := 0; k <= len(full)+1; k++ {
 				idx++
 				var got []ech.Target
